@@ -117,14 +117,23 @@ def run_property(prop, tier, seed, replay_only=None):
         def job(h):
             hspec = registry.H[h]
             root, crate = variants[hspec.get("variant", "default")]
+            vkey = hspec.get("variant", "default")
+            flags = (hspec.get("fs", 4096), tier == "thorough" and hspec.get("memsafe_thorough", False), hspec.get("extra"))
+            cpath = kani.cache_path(h, vkey, flags)
+            if not os.environ.get("VERIF_NO_REUSE"):
+                c = kani.cache_load(cpath)
+                if c is not None:
+                    return c
             gb = sched.acquire(hspec.get("mem", 8))
             try:
-                return kani.run_harness(
+                r = kani.run_harness(
                     crate, os.path.join(root, "t_" + h), h,
                     int(hspec.get("timeout", 300) * scale), hspec.get("mem", 8),
                     os.path.join(logs_dir, h + ".log"),
                     memsafe=(tier == "thorough" and hspec.get("memsafe_thorough", False)),
                     extra=hspec.get("extra"), fs=hspec.get("fs", 4096))
+                kani.cache_store(cpath, r)
+                return r
             finally:
                 sched.release(gb)
                 shutil.rmtree(os.path.join(root, "t_" + h), ignore_errors=True)
@@ -139,8 +148,9 @@ def run_property(prop, tier, seed, replay_only=None):
                 h = futs[f]
                 r = f.result()
                 results[h] = r
-                print("[%s] %-40s %-12s symex=%s solver=%.1fs wall=%.0fs %s" % (
-                    prop, h, r.status, r.symex_s, r.solver_s, r.wall_s, r.reason), flush=True)
+                print("[%s] %-40s %-12s symex=%s solver=%.1fs wall=%.0fs %s%s" % (
+                    prop, h, r.status, r.symex_s, r.solver_s, r.wall_s, r.reason,
+                    " (verdict reused: same /repo tree + harness hash, decided %s)" % r.decided_at if r.cached else ""), flush=True)
             if smt_fut:
                 smt_results = smt_fut.result()
 
